@@ -17,12 +17,23 @@ from . import engine as E
 SQLITE_OK, SQLITE_ERROR, SQLITE_BUSY, SQLITE_CONSTRAINT, SQLITE_FULL, SQLITE_ROW, SQLITE_DONE = 0, 1, 5, 19, 13, 100, 101
 T_INT, T_FLOAT, T_TEXT, T_BLOB, T_NULL = 1, 2, 3, 4, 5
 
+PRAGMA_QUERIES_WITH_ARG = {'TABLE_INFO', 'TABLE_XINFO', 'INDEX_LIST', 'INDEX_INFO', 'INDEX_XINFO', 'FOREIGN_KEY_LIST', 'FOREIGN_KEY_CHECK', 'INTEGRITY_CHECK', 'QUICK_CHECK', 'TABLE_LIST'}
+PRAGMA_QUERIES = {'DATABASE_LIST', 'COLLATION_LIST', 'COMPILE_OPTIONS', 'FUNCTION_LIST', 'MODULE_LIST', 'PRAGMA_LIST', 'DATA_VERSION', 'FREELIST_COUNT', 'PAGE_COUNT', 'PAGE_SIZE',
+                  'SCHEMA_VERSION', 'USER_VERSION', 'ENCODING', 'FOREIGN_KEYS', 'RECURSIVE_TRIGGERS', 'JOURNAL_MODE', 'APPLICATION_ID', 'AUTO_VACUUM', 'CACHE_SIZE', 'SYNCHRONOUS'}
 def classify(sql):
     s = sql.strip().upper()
     w = re.match(r'[A-Z]+', s)
     w = w.group(0) if w else ''
     if w in ('SELECT', 'WITH', 'EXPLAIN'): return 'read'
-    if w == 'PRAGMA': return 'write' if '=' in s else 'read'
+    if w == 'PRAGMA':
+        # only pragmas that are documented as pure queries count as reads; a pragma with '=' or an argument that changes state, and any
+        # pragma not listed here (optimize, incremental_vacuum, wal_checkpoint, ...), is a write (found with seeded change C16-3)
+        m = re.match(r'PRAGMA\s+(?:\w+\.)?(\w+)\s*(\(.*\))?\s*;?\s*$', s)
+        if m is None or '=' in s: return 'write'
+        name, arg = m.group(1), m.group(2)
+        if name in PRAGMA_QUERIES_WITH_ARG: return 'read'
+        if name in PRAGMA_QUERIES and not arg: return 'read'
+        return 'write'
     if w in ('INSERT', 'UPDATE', 'DELETE', 'REPLACE'): return 'write'
     if w in ('BEGIN', 'COMMIT', 'END', 'ROLLBACK', 'SAVEPOINT', 'RELEASE'): return 'txn'
     if w in ('ATTACH', 'DETACH', 'CREATE', 'DROP', 'ALTER', 'VACUUM', 'REINDEX', 'ANALYZE'): return 'ddl'
@@ -202,6 +213,20 @@ def install(eng, cfg=None):
         q.log.append(('step', kind, s_.sql, dict(s_.binds), 'ok'))
         return SQLITE_DONE
     M['sqlite3_step'] = m_step
+    def m_exec(st, a):
+        # sqlite3_exec(db, sql, callback, arg, errmsg): every statement of the text is prepared and run to completion (results are not delivered: no callback user in this code base)
+        text = eng.read_cstr(st, a[1]).decode('latin1')
+        q = sq(st)
+        for sql in [x.strip() for x in text.split(';') if x.strip()]:
+            s_ = Stmt(sql); q.log.append(('prepare', sql))
+            hook = cfg.get('on_prepare')
+            if hook: hook(st, q, s_)
+            if s_.kind in ('write', 'ddl', 'other'):
+                if q.txn: q.w_txn += 1
+                else: q.w_auto += 1
+            q.log.append(('step', s_.kind, sql, {}, 'ok (sqlite3_exec)'))
+        return SQLITE_OK
+    M['sqlite3_exec'] = m_exec
 
     def m_reset(st, a):
         q, s_ = stmt_of(st, a[0]); s_.pos = 0; s_.nrows = None; s_.rows = None; return SQLITE_OK
